@@ -716,39 +716,64 @@ fn main() {
     //--- (a2) ProvisioningCms::create / PublicationCms::create ---------------------------------------
     {
         let sp = ctx.space("created.protocol_cms",
-            "ProvisioningCms::create for {list, revoke} and PublicationCms::create for {list query, publish of 1 / 700 / 75000 octets} (XML content from ~150 to ~100000 octets); window read back from the embedded EE certificate; 10 instants (down to 1 ns around both bounds) x 3 keys through the typed decoder and SignedMessage::decode strict/relaxed; EE and CRL windows must coincide and span 10 minutes; non-trivial = evaluations at a boundary or under another key");
+            "ProvisioningCms::create for {list, revoke} and PublicationCms::create for {list query, publish of 1 / 700 / 75000 octets, delta with publish + update + withdraw, empty delta, list reply with 0 / 2 elements, success} (XML content from ~100 to ~100000 octets); window read back from the embedded EE certificate; 10 instants (down to 1 ns around both bounds) x 3 keys through the typed decoder and SignedMessage::decode strict/relaxed; EE and CRL windows must coincide and span 10 minutes. For every message also the sibling sweep: validate(key) == validate_at(key, Time::now()) for the CMS and for the unpacked SignedMessage; decode().message() / into_message() / unpack() give back the message that went in, the unpacked SignedMessage carries exactly its XML and validates like the CMS; the message's accessors (sender, recipient, unpack, is_list_response, request key / class; as_query / as_reply, delta len / is_empty / elements, publish / update / withdraw / list element tag, uri, content, hash, unpack, into_elements, into_withdraw_delta, Base64 as_str / to_bytes / size_approx) return what was put in; non-trivial = evaluations at a boundary or under another key, and every sibling comparison");
         let sender = SenderHandle::from_str("child").unwrap();
         let recipient = RecipientHandle::from_str("parent").unwrap();
-        let mut made: Vec<(String, Via, Vec<u8>, usize)> = Vec::new();
+        #[derive(Clone)]
+        enum Orig { Prov(provisioning::Message), Pub(publication::Message) }
+        /// what went into a publication message: (kind, tag, uri, content, hash)
+        type Elem = (&'static str, Option<String>, String, Vec<u8>, Vec<u8>);
+        let mut made: Vec<(String, Via, Vec<u8>, usize, Orig, Vec<Elem>)> = Vec::new();
         let prov = vec![
             ("provisioning list", provisioning::Message::list(sender.clone(), recipient.clone())),
             ("provisioning revoke", provisioning::Message::revoke(sender.clone(), recipient.clone(), RevocationRequest::new("rc0".into(), s.ski(K_THIRD)))),
         ];
         for (nm, m) in prov {
             let n = m.to_xml_bytes().len();
+            let orig = Orig::Prov(m.clone());
             match guard(|| ProvisioningCms::create(m, &s.kid(K_PEER), s).map(|c| c.to_bytes().to_vec())) {
-                Ok(Ok(b)) => made.push((nm.to_string(), Via::Provisioning, b, n)),
+                Ok(Ok(b)) => made.push((nm.to_string(), Via::Provisioning, b, n, orig, vec![])),
                 Ok(Err(e)) => fail("C10.created.valid_within", nm, format!("create failed: {e}")),
                 Err(p) => fail("C10.no_panic", nm, p),
             }
         }
-        let mut pubs = vec![("publication list query".to_string(), publication::Message::list_query())];
+        let body = |n: usize, k: usize| -> Vec<u8> { (0..n).map(|i| (i * 31 + 7 + k) as u8).collect() };
+        let uri = |k: usize| format!("rsync://example.net/repo/ca/obj{k}.roa");
+        let mut pubs: Vec<(String, publication::Message, Vec<Elem>)> = vec![("publication list query".to_string(), publication::Message::list_query(), vec![])];
         for n in [1usize, 700, 75_000] {
             let mut d = PublishDelta::empty();
-            let body: Vec<u8> = (0..n).map(|i| (i * 31 + 7) as u8).collect();
-            d.add_publish(Publish::with_hash_tag(pki::rsync("rsync://example.net/repo/ca/obj.roa"), Base64::from_content(&body)));
-            pubs.push((format!("publication publish {n}B"), publication::Message::delta(d)));
+            let c = body(n, 0);
+            let p = Publish::with_hash_tag(pki::rsync(&uri(0)), Base64::from_content(&c));
+            let tag = p.tag().cloned();
+            d.add_publish(p);
+            pubs.push((format!("publication publish {n}B"), publication::Message::delta(d), vec![("publish", tag, uri(0), c, vec![])]));
         }
-        for (nm, m) in pubs {
+        {
+            let mut d = PublishDelta::empty();
+            let (c1, c2, old, gone) = (body(10, 1), body(33, 2), body(5, 3), body(7, 4));
+            d.add_publish(Publish::new(Some("tag-1".into()), pki::rsync(&uri(1)), Base64::from_content(&c1)));
+            d.add_update(publication::Update::new(None, pki::rsync(&uri(2)), Base64::from_content(&c2), rpki::rrdp::Hash::from_data(&old)));
+            d.add_withdraw(publication::Withdraw::new(Some("tag-3".into()), pki::rsync(&uri(3)), rpki::rrdp::Hash::from_data(&gone)));
+            pubs.push(("publication delta publish+update+withdraw".into(), publication::Message::delta(d), vec![
+                ("publish", Some("tag-1".into()), uri(1), c1, vec![]), ("update", None, uri(2), c2, sha256(&old)), ("withdraw", Some("tag-3".into()), uri(3), vec![], sha256(&gone))]));
+            pubs.push(("publication empty delta".into(), publication::Message::delta(PublishDelta::empty()), vec![]));
+            let els: Vec<Elem> = (5..7).map(|k| ("list", None, uri(k), vec![], sha256(&body(20, k)))).collect();
+            let lr = publication::ListReply::new((5..7).map(|k| publication::ListElement::new(pki::rsync(&uri(k)), rpki::rrdp::Hash::from_data(&body(20, k)))).collect());
+            pubs.push(("publication list reply 2".into(), publication::Message::list_reply(lr), els));
+            pubs.push(("publication list reply 0".into(), publication::Message::list_reply(publication::ListReply::empty()), vec![]));
+            pubs.push(("publication success".into(), publication::Message::success(), vec![]));
+        }
+        for (nm, m, els) in pubs {
             let n = m.to_xml_bytes().len();
+            let orig = Orig::Pub(m.clone());
             match guard(|| PublicationCms::create(m, &s.kid(K_PEER), s).map(|c| c.to_bytes().to_vec())) {
-                Ok(Ok(b)) => made.push((nm, Via::Publication, b, n)),
+                Ok(Ok(b)) => made.push((nm, Via::Publication, b, n, orig, els)),
                 Ok(Err(e)) => fail("C10.created.valid_within", nm, format!("create failed: {e}")),
                 Err(p) => fail("C10.no_panic", nm, p),
             }
         }
         let mut sizes = Vec::new();
-        for (nm, via, bytes, n) in &made {
+        for (nm, via, bytes, n, orig, els) in &made {
             sizes.push(format!("{nm}: {n}B"));
             let ((nb, na), (tu, nu)) = embedded_windows(bytes);
             if (nb, na) != (tu, nu) || na - nb != 600 {
@@ -766,10 +791,110 @@ fn main() {
                     }
                 }
             }
+            // sibling sweep
+            let mid = pki::time(nb + 300);
+            let bad: Result<Vec<String>, String> = guard(|| {
+                let mut bad: Vec<String> = Vec::new();
+                let mut chk = |ok: bool, what: &str| if !ok { bad.push(what.to_string()) };
+                match orig {
+                    Orig::Prov(m) => {
+                        let cms = match ProvisioningCms::decode(bytes) { Ok(c) => c, Err(e) => return vec![format!("typed decode failed: {e}")] };
+                        chk(cms.message() == m, "decode().message() != message given to create");
+                        chk(&cms.clone().into_message() == m, "into_message() != message given to create");
+                        let (signed, msg) = cms.clone().unpack();
+                        chk(&msg == m, "unpack().1 != message given to create");
+                        chk(signed.content().to_bytes() == m.to_xml_bytes(), "unpack().0 does not carry the message's XML");
+                        for (k, _) in keys {
+                            let key = s.public(k);
+                            chk(cms.validate(&key).is_ok() == cms.validate_at(&key, Time::now()).is_ok(), "ProvisioningCms::validate != validate_at(now)");
+                            chk(signed.validate(&key).is_ok() == signed.validate_at(&key, Time::now()).is_ok(), "SignedMessage::validate != validate_at(now)");
+                            chk(signed.validate_at(&key, mid).is_ok() == cms.validate_at(&key, mid).is_ok(), "unpacked SignedMessage validates differently from the CMS");
+                            chk(cms.validate_at(&key, mid).is_ok() == (k == K_PEER), "typed CMS verdict at mid-window");
+                        }
+                        chk(msg.sender() == &sender && msg.recipient() == &recipient, "sender() / recipient() differ from what was put in");
+                        chk(msg.is_list_response() == matches!(msg.payload(), provisioning::Payload::ListResponse(_)), "is_list_response() disagrees with payload()");
+                        let payload = msg.payload().clone();
+                        let (us, ur, up) = msg.clone().unpack();
+                        chk(us == sender && ur == recipient && up == payload, "Message::unpack() disagrees with the accessors");
+                        if let provisioning::Payload::Revoke(req) = &payload {
+                            chk(req.key() == s.ski(K_THIRD) && req.class_name().as_ref() == "rc0", "RevocationRequest key() / class_name() differ from what was put in");
+                            let (c, k) = req.clone().unpack();
+                            chk(k == req.key() && &c == req.class_name(), "RevocationRequest::unpack() disagrees with the accessors");
+                        }
+                    }
+                    Orig::Pub(m) => {
+                        let cms = match PublicationCms::decode(bytes) { Ok(c) => c, Err(e) => return vec![format!("typed decode failed: {e}")] };
+                        chk(&cms.clone().into_message() == m, "into_message() != message given to create");
+                        let (signed, msg) = cms.clone().unpack();
+                        chk(&msg == m, "unpack().1 != message given to create");
+                        chk(signed.content().to_bytes() == m.to_xml_bytes(), "unpack().0 does not carry the message's XML");
+                        for (k, _) in keys {
+                            let key = s.public(k);
+                            chk(cms.validate(&key).is_ok() == cms.validate_at(&key, Time::now()).is_ok(), "PublicationCms::validate != validate_at(now)");
+                            chk(signed.validate(&key).is_ok() == signed.validate_at(&key, Time::now()).is_ok(), "SignedMessage::validate != validate_at(now)");
+                            chk(signed.validate_at(&key, mid).is_ok() == cms.validate_at(&key, mid).is_ok(), "unpacked SignedMessage validates differently from the CMS");
+                            chk(cms.validate_at(&key, mid).is_ok() == (k == K_PEER), "typed CMS verdict at mid-window");
+                        }
+                        let is_query = matches!(msg, publication::Message::Query(_));
+                        chk(msg.clone().as_query().is_ok() == is_query && msg.clone().as_reply().is_ok() == !is_query, "as_query() / as_reply() disagree with the variant");
+                        let b64 = |c: &Base64, want: &[u8]| -> bool {
+                            use base64::Engine;
+                            c.as_str() == base64::engine::general_purpose::STANDARD.encode(want) && c.to_bytes().as_ref() == want
+                                && (c.size_approx() as i64 - want.len() as i64).abs() <= 3 && c.to_hash().as_slice() == sha256(want).as_slice()
+                        };
+                        match msg.clone() {
+                            publication::Message::Query(publication::Query::Delta(d)) => {
+                                chk(d.len() == els.len() && d.is_empty() == els.is_empty(), "PublishDelta len() / is_empty() differ from the number of elements added");
+                                let got = d.clone().into_elements();
+                                chk(got.len() == d.len(), "into_elements().len() != len()");
+                                for (g, (kind, tag, u, content, hash)) in got.into_iter().zip(els.iter()) {
+                                    match g {
+                                        publication::PublishDeltaElement::Publish(p) => {
+                                            chk(*kind == "publish" && p.tag() == tag.as_ref() && p.uri().to_string() == *u && b64(p.content(), content), "Publish accessors differ from what was put in");
+                                            let (t, uu, c) = p.clone().unpack();
+                                            chk(t.as_ref() == p.tag() && &uu == p.uri() && &c == p.content(), "Publish::unpack() disagrees with the accessors");
+                                        }
+                                        publication::PublishDeltaElement::Update(p) => {
+                                            chk(*kind == "update" && p.tag() == tag.as_ref() && p.uri().to_string() == *u && b64(p.content(), content) && p.hash().as_slice() == hash.as_slice(), "Update accessors differ from what was put in");
+                                            let (t, uu, c, h) = p.clone().unpack();
+                                            chk(t.as_ref() == p.tag() && &uu == p.uri() && &c == p.content() && &h == p.hash(), "Update::unpack() disagrees with the accessors");
+                                        }
+                                        publication::PublishDeltaElement::Withdraw(p) => {
+                                            chk(*kind == "withdraw" && p.tag() == tag.as_ref() && p.uri().to_string() == *u && p.hash().as_slice() == hash.as_slice(), "Withdraw accessors differ from what was put in");
+                                            let (t, uu, h) = p.clone().unpack();
+                                            chk(t.as_ref() == p.tag() && &uu == p.uri() && &h == p.hash(), "Withdraw::unpack() disagrees with the accessors");
+                                        }
+                                    }
+                                }
+                            }
+                            publication::Message::Reply(publication::Reply::List(l)) => {
+                                chk(l.elements().len() == els.len() && l.clone().into_elements() == *l.elements(), "ListReply elements() / into_elements() differ");
+                                for (e, (_, _, u, _, hash)) in l.elements().iter().zip(els.iter()) {
+                                    chk(e.uri().to_string() == *u && e.hash().as_slice() == hash.as_slice(), "ListElement uri() / hash() differ from what was put in");
+                                    let (uu, h) = e.clone().unpack();
+                                    chk(&uu == e.uri() && &h == e.hash(), "ListElement::unpack() disagrees with the accessors");
+                                }
+                                let wd = l.clone().into_withdraw_delta();
+                                chk(wd.len() == l.elements().len(), "into_withdraw_delta() has another number of elements");
+                                for (w, e) in wd.into_elements().into_iter().zip(l.elements().iter()) {
+                                    chk(matches!(&w, publication::PublishDeltaElement::Withdraw(x) if x.uri() == e.uri() && x.hash() == e.hash()), "into_withdraw_delta() element differs from the list element");
+                                }
+                            }
+                            _ => {}
+                        }
+                    }
+                }
+                bad
+            });
+            sp.eval(); sp.nontrivial(1);
+            match bad {
+                Err(p) => fail("C10.no_panic", format!("{nm} sibling sweep"), p),
+                Ok(list) => { sp.outcome(if list.is_empty() { "siblings-agree" } else { "siblings-differ" }); for b in list { fail("C10.api.siblings", format!("{nm} ({n}B XML)"), b) } }
+            }
         }
         sp.set("content_sizes", serde_json::json!(sizes));
         sp.sample_str(|| sizes.join("; "));
-        sp.done(true, "6 messages x 10 instants x 3 keys x 3 routes");
+        sp.done(true, &format!("{} messages x 10 instants x 3 keys x 3 routes + one sibling sweep each", made.len()));
     }
 
     //--- (b1) foreign: benign variations must validate -------------------------------------------------
@@ -1222,6 +1347,100 @@ fn main() {
         sp.set("sequences_per_value", serde_json::json!(seqs.len()));
         sp.sample_str(|| "foreign ee{aki=absent ...} crl{aki=absent ...} sequence (peer key, T0+0s) -> (other key, T0+0s): validated, rejected".to_string());
         sp.done(true, &format!("{} messages x 3-4 decoded values x {} sequences (all ordered pairs and triples of 6 settings)", msgs.len(), seqs.len()));
+    }
+
+    //--- (b6) wall-clock variants against their timed siblings ------------------------------------------------------
+    {
+        let sp = ctx.space("api.wallclock",
+            "windows decades wide around the real now: {2000..2100 current, 2000..2001 expired, 2100..2101 future}. IdCert::validate_ee(key) against validate_ee_at(key, Time::now()) for the 144 EE option sets x 3 windows x {peer, other key}; IdCert::validate_ta() against validate_ta_at(Time::now()) for new_ta certificates (3 keys x 3 windows) and own-encoder self-issued certificates (basicConstraints absent/empty/cA x AKI right/absent/wrong x signed by own/other key x 3 windows); SignedMessage::validate, PublicationCms::validate, ProvisioningCms::validate against validate_at(Time::now()) for EE window x CRL window (9) x EE AKI x CRL AKI x revoked {empty, lists EE} x cA x {peer, other key}: the two verdicts of a pair must be equal; non-trivial = all");
+        const CUR: (i64, i64) = (946_684_800, 4_102_444_800);
+        const EXP: (i64, i64) = (946_684_800, 978_307_200);
+        const FUT: (i64, i64) = (4_102_444_800, 4_133_980_800);
+        let wins = [("2000..2100", CUR), ("2000..2001", EXP), ("2100..2101", FUT)];
+        let ee_spec = |o: &EeO, w: (i64, i64)| EeSpec { serial: big_or_small_serial(o.big_serial), nb: w.0, na: w.1, subject_key: K_EE, sign_key: if o.other_key { K_OTHER } else { K_PEER },
+            ski: if o.ski_other { Some(s.key(K_EE2).ski.to_vec()) } else { None }, aki: aki_value(s, o.aki),
+            basic: match o.basic { 0 => Basic::Absent, 1 => Basic::EmptySeq, _ => Basic::CaTrue }, key_usage_ext: o.key_usage, issuer: 0, subject: 0 };
+        let oc: Mutex<BTreeMap<&'static str, u64>> = Mutex::new(BTreeMap::new());
+        let tally = |k: &'static str| *oc.lock().unwrap().entry(k).or_insert(0) += 1;
+        // IdCert as EE
+        let ee_opts: Vec<EeO> = ee_full().into_iter().filter(|o| !o.wide).collect();
+        ee_opts.par_iter().for_each(|o| { for (wn, w) in wins {
+            let der = ee_cert(s, &ee_spec(o, w));
+            for k in [K_PEER, K_OTHER] {
+                sp.eval(); sp.nontrivial(1);
+                let key = s.public(k);
+                let wit = || format!("IdCert {} window={wn} key={}", show_ee(o), if k == K_PEER { "peer" } else { "other" });
+                match guard(|| IdCert::decode(Bytes::copy_from_slice(&der)).map(|c| (c.validate_ee(&key).is_ok(), c.validate_ee_at(&key, Time::now()).is_ok()))) {
+                    Err(p) => fail("C10.no_panic", wit(), p),
+                    Ok(Err(e)) => fail("C10.api.wallclock", wit(), format!("certificate of the independent encoder does not decode: {e}")),
+                    Ok(Ok((wall, at))) => { tally(if wall { "validated" } else { "rejected" }); if wall != at { fail("C10.api.wallclock", wit(), format!("validate_ee() ok={wall}, validate_ee_at(Time::now()) ok={at}")) } }
+                }
+            }
+        }});
+        // IdCert as TA
+        let mut tas: Vec<(String, Vec<u8>)> = Vec::new();
+        for (wn, w) in wins {
+            for k in 0..3usize {
+                match guard(|| IdCert::new_ta(Validity::new(pki::time(w.0), pki::time(w.1)), &s.kid(k), s).map(|c| c.to_bytes().to_vec())) {
+                    Ok(Ok(b)) => tas.push((format!("IdCert::new_ta key={k} window={wn}"), b)),
+                    Ok(Err(e)) => fail("C10.api.wallclock", format!("new_ta key={k} window={wn}"), format!("new_ta failed: {e}")),
+                    Err(p) => fail("C10.no_panic", format!("new_ta key={k} window={wn}"), p),
+                }
+            }
+            for basic in 0..3u8 { for aki in 0..3u8 { for other in [false, true] {
+                let e = EeSpec { serial: vec![1], nb: w.0, na: w.1, subject_key: K_PEER, sign_key: if other { K_OTHER } else { K_PEER }, ski: None, aki: aki_value(s, aki),
+                    basic: match basic { 0 => Basic::Absent, 1 => Basic::EmptySeq, _ => Basic::CaTrue }, key_usage_ext: false, issuer: 0, subject: 0 };
+                tas.push((format!("self-issued basic={} aki={} signed-by={} window={wn}", ["absent", "empty", "cA"][basic as usize], ["own", "absent", "other"][aki as usize], if other { "other" } else { "own" }), ee_cert(s, &e)));
+            }}}
+        }
+        for (label, der) in &tas {
+            sp.eval(); sp.nontrivial(1);
+            match guard(|| IdCert::decode(Bytes::copy_from_slice(der)).map(|c| (c.validate_ta().is_ok(), c.validate_ta_at(Time::now()).is_ok()))) {
+                Err(p) => fail("C10.no_panic", label.clone(), p),
+                Ok(Err(e)) => fail("C10.api.wallclock", label.clone(), format!("certificate does not decode: {e}")),
+                Ok(Ok((wall, at))) => { tally(if wall { "validated" } else { "rejected" }); if wall != at { fail("C10.api.wallclock", label.clone(), format!("validate_ta() ok={wall}, validate_ta_at(Time::now()) ok={at}")) } }
+            }
+        }
+        // messages
+        let prov_xml = provisioning::Message::list(SenderHandle::from_str("child").unwrap(), RecipientHandle::from_str("parent").unwrap()).to_xml_bytes().to_vec();
+        let fx_prov = Fx { s: PoolSigner::load(), content: prov_xml, peer: fx.peer.clone() };
+        let base = Plan::base();
+        let (ps_pub, ps_prov) = (presign(&fx, &base), presign(&fx_prov, &base));
+        let mut jobs = Vec::new();
+        for (en, ew) in wins { for (cn, cw) in wins { for eaki in [0u8, 1] { for caki in [0u8, 1] { for revoked in [0u8, 4] { for basic in [0u8, 2] { jobs.push((en, ew, cn, cw, eaki, caki, revoked, basic)) } } } } } }
+        jobs.par_iter().for_each(|&(en, ew, cn, cw, eaki, caki, revoked, basic)| {
+            let eo = EeO { aki: eaki, basic, ..EE_BASE };
+            let ee_der = ee_cert(s, &ee_spec(&eo, ew));
+            let list = if revoked == 4 { Some(vec![(EE_SERIAL.to_vec(), false)]) } else { Some(vec![]) };
+            let crl_der = crl(s, &CrlSpec { this: cw.0, next: cw.1, sign_key: K_PEER, revoked: list, aki: aki_value(s, caki), number: Some(7), unknown_ext: false, ext_block: true, ign: CrlIgn::DEFAULT, ee_serial: EE_SERIAL.to_vec() });
+            let (m_pub, m_prov) = (wrap(&fx, &base, &ps_pub, false, &ee_der, &crl_der), wrap(&fx_prov, &base, &ps_prov, false, &ee_der, &crl_der));
+            for k in [K_PEER, K_OTHER] {
+                let key = s.public(k);
+                for route in ["strict", "relaxed", "publication-cms", "provisioning-cms"] {
+                    sp.eval(); sp.nontrivial(1);
+                    let wit = || format!("foreign {} ee-window={en} crl-window={cn} crl-aki={} revoked={} key={} route={route}", show_ee(&eo), ["right", "absent"][caki as usize], if revoked == 4 { "ee-only" } else { "empty" }, if k == K_PEER { "peer" } else { "other" });
+                    let r = guard(|| -> Result<(bool, bool), String> { Ok(match route {
+                        "strict" => { let m = SignedMessage::decode(Bytes::copy_from_slice(&m_pub), true).map_err(|e| e.to_string())?; (m.validate(&key).is_ok(), m.validate_at(&key, Time::now()).is_ok()) }
+                        "relaxed" => { let m = SignedMessage::decode(Bytes::copy_from_slice(&m_pub), false).map_err(|e| e.to_string())?; (m.validate(&key).is_ok(), m.validate_at(&key, Time::now()).is_ok()) }
+                        "publication-cms" => { let m = PublicationCms::decode(&m_pub).map_err(|e| e.to_string())?; (m.validate(&key).is_ok(), m.validate_at(&key, Time::now()).is_ok()) }
+                        _ => { let m = ProvisioningCms::decode(&m_prov).map_err(|e| e.to_string())?; (m.validate(&key).is_ok(), m.validate_at(&key, Time::now()).is_ok()) }
+                    })});
+                    match r {
+                        Err(p) => fail("C10.no_panic", wit(), p),
+                        Ok(Err(e)) => fail("C10.api.wallclock", wit(), format!("message of the independent encoder does not decode: {e}")),
+                        Ok(Ok((wall, at))) => {
+                            tally(if wall { "validated" } else { "rejected" });
+                            if wall != at { fail("C10.api.wallclock", wit(), format!("validate() ok={wall}, validate_at(Time::now()) ok={at}")) }
+                            let model = k == K_PEER && en == "2000..2100" && cn == "2000..2100" && revoked == 0 && basic == 0;
+                            if at != model { fail("C10.api.wallclock", wit(), format!("validate_at(Time::now()) ok={at}, the conditions say {model}")) }
+                        }
+                    }
+                }
+            }
+        });
+        sp.merge_outcomes(&oc.lock().unwrap());
+        sp.sample_str(|| "foreign ee-window=2000..2100 crl-window=2000..2001 key=peer: validate() and validate_at(now) both reject".to_string());
+        sp.done(true, &format!("{} EE option sets x 3 windows x 2 keys; {} TA certificates; {} messages x 2 keys x 4 routes", ee_opts.len(), tas.len(), jobs.len()));
     }
 
     //--- (c) every single-bit flip -------------------------------------------------------------------------------
